@@ -58,6 +58,7 @@ VARIABLES
   sbuf,      \* [End -> BOOLEAN] buffered-API send buffer non-empty
   seom,      \* [End -> BOOLEAN] EndMessage called, StartMessage not yet (sendEOM)
   sentLog,   \* [Dir -> Seq(Nat)] frame count of each completely sent message
+  sentKind,  \* [Dir -> Seq(STRING)] "msg" or "secret" for each completely sent message
   sndErr,    \* [Dir -> BOOLEAN] a send was refused (counter limit)
   rstate,    \* [Dir -> {"idle","busy","inmsg","err"}]
   rapi,      \* [Dir -> api of the call in progress]
@@ -70,7 +71,7 @@ VARIABLES
   lost       \* [Dir -> BOOLEAN] buffered outbound bytes were dropped by a dirty hand-off
 
 vars == <<baseEnc, pre, sIV, sCtr, sFirst, rIV, rCtr, rFirst, ivNext, wire, closed,
-          cur, sbuf, seom, sentLog, sndErr, rstate, rapi, rpart, delivered,
+          cur, sbuf, seom, sentLog, sentKind, sndErr, rstate, rapi, rpart, delivered,
           used, reuse, faults, handoffs, lastHandoff, lost>>
 
 Kinds == {"direct", "buffered", "secret"}
@@ -111,6 +112,7 @@ Init ==
   /\ sbuf = [e \in End |-> FALSE]
   /\ seom = [e \in End |-> FALSE]
   /\ sentLog = [d \in Dir |-> <<>>]
+  /\ sentKind = [d \in Dir |-> <<>>]
   /\ sndErr = [d \in Dir |-> FALSE]
   /\ rstate = [d \in Dir |-> "idle"]
   /\ rapi = [d \in Dir |-> "none"]
@@ -138,7 +140,7 @@ Emit(d, end, prot) ==
   IN IF refuse
      THEN /\ sndErr' = [sndErr EXCEPT ![d] = TRUE]
           /\ cur' = [cur EXCEPT ![d] = None]
-          /\ UNCHANGED <<wire, sCtr, sFirst, used, reuse, sentLog>>
+          /\ UNCHANGED <<wire, sCtr, sFirst, used, reuse, sentLog, sentKind>>
      ELSE /\ wire' = [wire EXCEPT ![d] = Append(@, GenuineFrame(d, id, end, prot))]
           /\ IF prot
              THEN /\ sCtr' = [sCtr EXCEPT ![d] =
@@ -150,10 +152,14 @@ Emit(d, end, prot) ==
              ELSE UNCHANGED <<sCtr, sFirst, used, reuse>>
           /\ IF end = 1
              THEN /\ sentLog' = [sentLog EXCEPT ![d] = Append(@, cur[d].k + 1)]
+                  /\ sentKind' = [sentKind EXCEPT ![d] = Append(@, "msg")]
                   /\ cur' = [cur EXCEPT ![d] = None]
              ELSE /\ cur' = [cur EXCEPT ![d].k = @ + 1]
-                  /\ UNCHANGED sentLog
+                  /\ UNCHANGED <<sentLog, sentKind>>
           /\ UNCHANGED sndErr
+
+\* will a protected emit be refused now (counter limit)?
+Refused(d, prot) == prot /\ sCtr[d] = MaxCtr /\ "WrapAllowed" \notin Bug
 
 SenderFrame == <<baseEnc, pre, sIV, rIV, rCtr, rFirst, ivNext, closed, rstate, rapi,
                  rpart, delivered, faults, handoffs, lastHandoff, lost>>
@@ -163,7 +169,7 @@ StartDirect(d) ==
   /\ CanStart(d)
   /\ cur' = [cur EXCEPT ![d] = [kind |-> "direct", k |-> 0]]
   /\ UNCHANGED <<baseEnc, pre, sIV, sCtr, sFirst, rIV, rCtr, rFirst, ivNext, wire, closed,
-                 sbuf, seom, sentLog, sndErr, rstate, rapi, rpart, delivered, used, reuse,
+                 sbuf, seom, sentLog, sentKind, sndErr, rstate, rapi, rpart, delivered, used, reuse,
                  faults, handoffs, lastHandoff, lost>>
 
 SendPartial(d) ==
@@ -184,7 +190,7 @@ PutSecret(d) ==
          nonce == <<d, sIV[d], sCtr[d]>>
      IN IF refuse
         THEN /\ sndErr' = [sndErr EXCEPT ![d] = TRUE]
-             /\ UNCHANGED <<wire, sCtr, sFirst, used, reuse, sentLog>>
+             /\ UNCHANGED <<wire, sCtr, sFirst, used, reuse, sentLog, sentKind>>
         ELSE /\ wire' = [wire EXCEPT ![d] = Append(@, GenuineFrame(d, id, 1, TRUE))]
              /\ sCtr' = [sCtr EXCEPT ![d] = IF "NoCtrAdvance" \in Bug THEN @
                                            ELSE IF @ = MaxCtr THEN 0 ELSE @ + 1]
@@ -192,6 +198,7 @@ PutSecret(d) ==
              /\ used' = used \cup {nonce}
              /\ reuse' = (reuse \/ nonce \in used)
              /\ sentLog' = [sentLog EXCEPT ![d] = Append(@, 1)]
+             /\ sentKind' = [sentKind EXCEPT ![d] = Append(@, "secret")]
              /\ UNCHANGED sndErr
   /\ UNCHANGED <<SenderFrame, cur, sbuf, seom>>
 
@@ -202,7 +209,7 @@ StartMsg(d) ==
   /\ sbuf' = [sbuf EXCEPT ![Snd(d)] = FALSE]
   /\ seom' = [seom EXCEPT ![Snd(d)] = FALSE]
   /\ UNCHANGED <<baseEnc, pre, sIV, sCtr, sFirst, rIV, rCtr, rFirst, ivNext, wire, closed,
-                 sentLog, sndErr, rstate, rapi, rpart, delivered, used, reuse,
+                 sentLog, sentKind, sndErr, rstate, rapi, rpart, delivered, used, reuse,
                  faults, handoffs, lastHandoff, lost>>
 
 \* a write that stays below the flush threshold
@@ -210,20 +217,22 @@ WriteBuf(d) ==
   /\ cur[d].kind = "buffered" /\ ~sbuf[Snd(d)]
   /\ sbuf' = [sbuf EXCEPT ![Snd(d)] = TRUE]
   /\ UNCHANGED <<baseEnc, pre, sIV, sCtr, sFirst, rIV, rCtr, rFirst, ivNext, wire, closed,
-                 cur, seom, sentLog, sndErr, rstate, rapi, rpart, delivered, used, reuse,
+                 cur, seom, sentLog, sentKind, sndErr, rstate, rapi, rpart, delivered, used, reuse,
                  faults, handoffs, lastHandoff, lost>>
 
 \* a write that crosses the threshold: the whole buffer leaves as a partial frame
 WriteFlush(d) ==
   /\ cur[d].kind = "buffered" /\ cur[d].k + 1 < MaxFrames
   /\ Emit(d, 0, baseEnc)
-  /\ sbuf' = [sbuf EXCEPT ![Snd(d)] = FALSE]
+  \* a refused flush leaves what was written in the send buffer
+  /\ sbuf' = [sbuf EXCEPT ![Snd(d)] = Refused(d, baseEnc)]
   /\ UNCHANGED <<SenderFrame, seom>>
 
 EndMsg(d) ==
   /\ cur[d].kind = "buffered"
   /\ Emit(d, 1, baseEnc)
-  /\ sbuf' = [sbuf EXCEPT ![Snd(d)] = FALSE]
+  \* a refused EndMessage keeps the buffered bytes (and has already set sendEOM)
+  /\ sbuf' = [sbuf EXCEPT ![Snd(d)] = IF Refused(d, baseEnc) THEN @ ELSE FALSE]
   /\ seom' = [seom EXCEPT ![Snd(d)] = TRUE]
   /\ UNCHANGED SenderFrame
 
@@ -232,7 +241,7 @@ CloseWire(d) ==
   /\ ~closed[d] /\ cur[d] = None
   /\ closed' = [closed EXCEPT ![d] = TRUE]
   /\ UNCHANGED <<baseEnc, pre, sIV, sCtr, sFirst, rIV, rCtr, rFirst, ivNext, wire,
-                 cur, sbuf, seom, sentLog, sndErr, rstate, rapi, rpart, delivered, used, reuse,
+                 cur, sbuf, seom, sentLog, sentKind, sndErr, rstate, rapi, rpart, delivered, used, reuse,
                  faults, handoffs, lastHandoff, lost>>
 
 -----------------------------------------------------------------------------
@@ -257,10 +266,10 @@ CallRecv(d, api) ==
   /\ rstate' = [rstate EXCEPT ![d] = "busy"]
   /\ rapi' = [rapi EXCEPT ![d] = api]
   /\ UNCHANGED <<baseEnc, pre, sIV, sCtr, sFirst, rIV, rCtr, rFirst, ivNext, wire, closed,
-                 cur, sbuf, seom, sentLog, sndErr, rpart, delivered, used, reuse,
+                 cur, sbuf, seom, sentLog, sentKind, sndErr, rpart, delivered, used, reuse,
                  faults, handoffs, lastHandoff, lost>>
 
-RecvFrameVars == <<baseEnc, pre, sIV, sCtr, sFirst, ivNext, closed, cur, sbuf, seom, sentLog,
+RecvFrameVars == <<baseEnc, pre, sIV, sCtr, sFirst, ivNext, closed, cur, sbuf, seom, sentLog, sentKind,
                    sndErr, rapi, used, reuse, faults, handoffs, lastHandoff, lost>>
 
 Fail(d) ==
@@ -313,7 +322,7 @@ EndRead(d) ==
   /\ rpart' = [rpart EXCEPT ![d] = <<>>]
   /\ rstate' = [rstate EXCEPT ![d] = "idle"]
   /\ UNCHANGED <<baseEnc, pre, sIV, sCtr, sFirst, rIV, rCtr, rFirst, ivNext, wire, closed,
-                 cur, sbuf, seom, sentLog, sndErr, rapi, used, reuse, faults, handoffs, lastHandoff, lost>>
+                 cur, sbuf, seom, sentLog, sentKind, sndErr, rapi, used, reuse, faults, handoffs, lastHandoff, lost>>
 
 -----------------------------------------------------------------------------
 (* Export + import of endpoint e's crypto state around the same connection. *)
@@ -349,7 +358,7 @@ Handoff(e) ==
                 /\ sCtr' = IF "ImportResetsCtr" \in Bug THEN [sCtr EXCEPT ![Out(e)] = 0] ELSE sCtr
            ELSE UNCHANGED <<rpart, rstate, sbuf, seom, sCtr, lost>>
   /\ UNCHANGED <<baseEnc, pre, sIV, sFirst, rIV, rCtr, rFirst, ivNext, wire, closed, cur,
-                 sentLog, sndErr, rapi, delivered, used, reuse, faults>>
+                 sentLog, sentKind, sndErr, rapi, delivered, used, reuse, faults>>
 
 \* The exported blob is damaged on its way to the importer (truncated, wrong magic,
 \* wrong version): the import must be refused; the original stream carries on.
@@ -362,14 +371,14 @@ HandoffBadBlob(e, fault) ==
   /\ handoffs' = handoffs + 1
   /\ lastHandoff' = IF "ImportUnchecked" \in Bug THEN "ok" ELSE "importRefused"
   /\ UNCHANGED <<baseEnc, pre, sIV, sCtr, sFirst, rIV, rCtr, rFirst, ivNext, wire, closed, cur,
-                 sbuf, seom, sentLog, sndErr, rstate, rapi, rpart, delivered, used, reuse, faults, lost>>
+                 sbuf, seom, sentLog, sentKind, sndErr, rstate, rapi, rpart, delivered, used, reuse, faults, lost>>
 
 -----------------------------------------------------------------------------
 (* On-path adversary: edits wire[d].  Only meaningful on an encrypting
    stream (C02 speaks about AES-GCM-protected streams).                     *)
 
 AdvVars == <<baseEnc, pre, sIV, sCtr, sFirst, rIV, rCtr, rFirst, ivNext, closed,
-             cur, sbuf, seom, sentLog, sndErr, rstate, rapi, rpart, delivered, used, reuse,
+             cur, sbuf, seom, sentLog, sentKind, sndErr, rstate, rapi, rpart, delivered, used, reuse,
              handoffs, lastHandoff, lost>>
 
 CanAdv(d) == baseEnc /\ faults < MaxFaults
@@ -430,16 +439,22 @@ Adversary ==
 -----------------------------------------------------------------------------
 SenderNext(d) ==
   \/ StartDirect(d) \/ SendPartial(d) \/ SendFinal(d)
-  \/ (~baseEnc /\ PutSecret(d))
+  \/ PutSecret(d)    \* on an encrypting stream the crypto-for-secret toggle is a no-op
   \/ StartMsg(d) \/ WriteBuf(d) \/ WriteFlush(d) \/ EndMsg(d)
   \/ CloseWire(d)
+
+\* the receive API is fixed by the application protocol: the receiver knows whether
+\* the next message it is owed is a secret (GetSecret) or an ordinary message
+ExpectSecret(d) ==
+  LET n == Len(delivered[d]) + (IF rstate[d] = "inmsg" THEN 1 ELSE 0) + 1 IN
+  n <= Len(sentKind[d]) /\ sentKind[d][n] = "secret"
 
 ReceiverNext(d) ==
   \* which receive API is used is fixed by the application protocol: a secret is
   \* read with GetSecret.  A call that would block on an empty wire is the same
   \* as the call made later, so calls start when there is something to read.
   \/ \E api \in Apis : /\ wire[d] # <<>> \/ closed[d]
-                       /\ (api = "secret") = (~baseEnc /\ wire[d] # <<>> /\ Head(wire[d]).prot)
+                       /\ (api = "secret") = ExpectSecret(d)
                        /\ CallRecv(d, api)
   \/ RecvStep(d) \/ EndRead(d)
 
